@@ -257,6 +257,18 @@ class Ctx:
             self.absorb(ch, crash_key, what)
         return res
 
+    def parallel(self, jobs, parallel=16, crash_key=None):
+        """jobs: list of dicts(binary, run, env, timeout, what, args, wrap); run concurrently, absorb in order."""
+        with ThreadPoolExecutor(max_workers=parallel) as ex:
+            futs = [(j, ex.submit(self.child, j['binary'], j.get('run', '.'), j.get('env'), j.get('timeout', 600),
+                                  j.get('shard', (0, 1)), j.get('wrap'), j.get('args'), None)) for j in jobs]
+            out = []
+            for j, f in futs:
+                ch = f.result()
+                self.absorb(ch, j.get('crash_key', crash_key), j.get('what', j.get('run', 'child')))
+                out.append(ch)
+        return out
+
     # ------------------------------------------------------------------ finish
     def finish(self):
         wall = round(time.time() - self.t0, 2)
